@@ -1,6 +1,6 @@
 // replay / bounded stand-in driver (appended to acts/src/scheduler/tests/message.rs of a scratch copy): property C08.
 // For every task the client sees at most one `created` and at most one terminal message, the terminal one last, and a task whose
-// error is taken by its own catch reports only its eventual ending.  6 workflows: plain act, two acts in sequence, step catch with
+// error is taken by its own catch reports only its eventual ending.  8 workflows (+ every ended workflow / step / interrupt act has exactly one terminal message with its final state): plain act, two acts in sequence, step catch with
 // steps, step catch without steps, act catch without steps, step with a false condition.
 #[tokio::test]
 async fn verif_replay_hist_message_stream() {
@@ -14,6 +14,10 @@ async fn verif_replay_hist_message_stream() {
             .with_step(|s| s.with_id("step2").with_act(Act::irq(|a| a.with_key("ok1"))))),
         ("act catch without steps takes its own error", Workflow::new().with_id("v_m5").with_step(|s| s.with_id("step1").with_act(Act::irq(|a| a.with_key("err1")).with_catch(|c| c)))
             .with_step(|s| s.with_id("step2").with_act(Act::irq(|a| a.with_key("ok1"))))),
+        ("the steps of a step catch fail again: the catching step ends in error after all", Workflow::new().with_id("v_m7").with_step(|s| s.with_id("step1").with_act(Act::irq(|a| a.with_key("err1")))
+            .with_catch(|c| c.with_step(|s| s.with_id("cs1").with_act(Act::irq(|a| a.with_key("err2"))))))),
+        ("the steps of an act catch fail again", Workflow::new().with_id("v_m8").with_step(|s| s.with_id("step1").with_act(Act::irq(|a| a.with_key("err1")).with_id("a1")
+            .with_catch(|c| c.with_step(|s| s.with_id("cs1").with_act(Act::irq(|a| a.with_key("err2")))))))),
         ("step with a false condition is skipped", Workflow::new().with_id("v_m6").with_step(|s| s.with_id("step1").with_if("false").with_act(Act::irq(|a| a.with_key("ok1"))))
             .with_step(|s| s.with_id("step2").with_act(Act::irq(|a| a.with_key("ok2"))))),
     ];
@@ -49,6 +53,17 @@ async fn verif_replay_hist_message_stream() {
             if created > 1 { bad.push(format!("REPLAY-FAIL [{name}] task {nid}: {created} `created` messages: {sts:?}")); }
             if terminal.len() > 1 { bad.push(format!("REPLAY-FAIL [{name}] task {nid}: {} terminal messages: {sts:?}", terminal.len())); }
             if terminal.len() == 1 && sts.last().map(|s| s.as_str()) == Some("created") { bad.push(format!("REPLAY-FAIL [{name}] task {nid}: `created` after the terminal message: {sts:?}")); }
+        }
+        // every workflow, step and interrupt act that ENDS yields a terminal message with its final state
+        for t in proc.tasks().iter() {
+            let kind = t.node().kind();
+            let reported = per.contains_key(&t.id);
+            let is_wf_or_step = kind == crate::scheduler::NodeKind::Workflow || kind == crate::scheduler::NodeKind::Step;
+            if !(is_wf_or_step || (kind == crate::scheduler::NodeKind::Act && reported)) { continue; }
+            if !t.state().is_completed() { continue; }
+            let want = MessageState::from(t.state()).to_string();
+            let got: Vec<String> = per.get(&t.id).map(|(_, sts)| sts.iter().filter(|s| s.as_str() != "created" && s.as_str() != "none").cloned().collect()).unwrap_or_default();
+            if got != vec![want.clone()] { bad.push(format!("REPLAY-FAIL [{name}] task {} ({:?}) ended `{want}` but its terminal message(s) are {got:?}", t.node().id(), kind)); }
         }
     }
     for b in bad.iter() { println!("{b}"); }
